@@ -9,5 +9,8 @@ func init() {
 	alias("C02", "C02.9", "C10.2", "pending output is routed ring-then-list")
 	alias("C02", "C02.10", "C11.1", "ReadFrom on a connection stores through linkedlist.Buffer.ReadFrom once the ring is full")
 	alias("C11", "C11.6", "C12.7", "a queued segment is owned by the list alone: ReadFrom/PushBack never pool a slice they linked")
+	alias("C19", "C19.7", "C06.3", "Stop polls isShutdown(): it may only become true after the loops were waited for and closed")
+	alias("C12", "C12.8", "C17.5", "release() pools the zone bytes of a connection: they must not be shared with anything else")
+	alias("C10", "C10.8", "C09.8", "elastic ReadFrom lands in ring.Buffer.ReadFrom while the ring has room")
 	alias("C10", "C10.6", "C09.6", "the ring half moves data with split copies")
 }
